@@ -395,12 +395,14 @@ impl UserRx {
     /// Flush the outstanding messages to user read half.
     /// Returns the number of bytes flushed.
     pub fn flush(&mut self, cx: &mut std::task::Context<'_>) -> crate::Result<usize> {
-        let filled_front_bytes: usize = self.ooq.filled_front_bytes();
+        // Everything parked in the reassembly queue (in order or not) counts against the window
+        // we advertise (see remaining_rx_window()). If that window is going to be zero, the
+        // reader must wake us up when it frees space.
+        let parked_bytes: usize = self.ooq.stored_bytes();
         let mut remaining_rx_window = {
             let mut g = self.shared.locked.lock();
             let remaining_window = g.queue.window();
-            if remaining_window.saturating_sub(filled_front_bytes) < self.max_incoming_payload.get()
-            {
+            if remaining_window.saturating_sub(parked_bytes) < self.max_incoming_payload.get() {
                 update_optional_waker(&mut g.dispatcher_waker, cx);
             }
             remaining_window
@@ -592,14 +594,6 @@ impl OutOfOrderQueue {
             len_bytes: 0,
             capacity: capacity.get(),
         }
-    }
-
-    fn filled_front_bytes(&self) -> usize {
-        self.data
-            .iter()
-            .take(self.filled_front)
-            .map(|m| m.len_bytes())
-            .sum()
     }
 
     fn send_front_if_fits(
